@@ -5,6 +5,7 @@ import Driver.Enable
 import Driver.C13
 import Driver.C15
 import Driver.C17
+import Driver.C20
 open Driver
 
 def dispatch (line : String) : String :=
@@ -14,6 +15,7 @@ def dispatch (line : String) : String :=
   | "exit" :: args => C05.exit args
   | "checks" :: args => EnableOp.checks args
   | "merge" :: args => EnableOp.merge args
+  | "depcheck" :: args => C20.depcheck args
   | "reconcile" :: args => C17.reconcile args
   | "failover" :: args => C15.failoverOp args
   | "slice" :: args => C13.op "slice" args
